@@ -1,11 +1,11 @@
 SPECIFICATION Spec
 CONSTANTS
   Users = {"u1", "u2", "u3"}
-  Issuers = {"u1", "u2"}
+  Issuers = {"u1"}
   MaxD = 2
   MaxM = 2
-  MaxU = 4
-  Amounts = {0, 1, 2, 3, 4}
+  MaxU = 3
+  Amounts = {0, 1, 2, 3}
   DataVals = {"a", "b"}
   RecordHist = FALSE
 VIEW View
